@@ -24,6 +24,12 @@ func c03Prop(c *sim.Case) {
 	if sim.Bool(c, "extra-scopes") {
 		o.Scopes = []string{"email", "profile"}
 	}
+	if sim.Weighted(c, "session-timeouts", 2, 1) == 1 {
+		// limits far beyond the history: they must not get in the way of a login
+		o.Abs = []time.Duration{0, time.Hour, 24 * time.Hour}[sim.Pick(c, "abs", 3)]
+		o.Idle = []time.Duration{0, 30 * time.Minute, 12 * time.Hour}[sim.Pick(c, "idle", 3)]
+		c.Class("config:session-timeouts")
+	}
 	// host / callback variants: what the browser puts in Host vs. what the callback URI says
 	reqHost := "app.test"
 	switch sim.Weighted(c, "host", 5, 2, 2, 1, 1) {
@@ -46,6 +52,11 @@ func c03Prop(c *sim.Case) {
 	target := genTarget(c, "target")
 	if o.ViaServer {
 		o.TriggerRules = coveringRules(c, target)
+	}
+	if o.ViaServer && o.Store == "redis" && (o.Abs > 0 || o.Idle > 0) {
+		// the assembled filter runs on the real clock: Redis must follow it for expiry times to mean anything
+		stop := sim.RealTimeRedis()
+		defer stop()
 	}
 	w := sim.NewWorld(c, o)
 	defer w.Close()
@@ -150,6 +161,9 @@ func c03Prop(c *sim.Case) {
 			life = d
 		}
 	}
+	if o.Abs > 0 && o.Abs < life {
+		life = o.Abs // the session itself ends there
+	}
 	budget := life - 10*time.Second
 	n := sim.Pick(c, "more", 11)
 	for i := 0; i < n; i++ {
@@ -157,6 +171,9 @@ func c03Prop(c *sim.Case) {
 			d := time.Duration(sim.Pick(c, "adv", int(budget/time.Second)+1)) * time.Second
 			if sim.Bool(c, "adv.small") {
 				d = d / 50
+			}
+			if o.Idle > 0 && d > o.Idle-10*time.Second {
+				d = o.Idle - 10*time.Second // no pause long enough for the session to idle out
 			}
 			budget -= d
 			if d > 0 {
